@@ -296,7 +296,7 @@ func runVerify(w *World, opt verifyOpts) int {
 			if opt.onlyObl != "" && o.Name != opt.onlyObl {
 				continue
 			}
-			if opt.all || len(o.Tags) == 0 || hasTag(o.Tags, opt.prop) || depNames[o.Func] {
+			if opt.all || (len(o.Tags) == 0 && r.Contract.ownsUntagged(opt.prop, o.Kind)) || hasTag(o.Tags, opt.prop) || depNames[o.Func] {
 				obls = append(obls, o)
 			}
 		}
